@@ -291,7 +291,7 @@ func stage(op string, err error) string {
 	return "err:" + op
 }
 
-func (s *state) dump() string {
+func (s *state) dump(step int) string {
 	ctx := hx.Ctx()
 	ids := append([]int{}, s.order...)
 	hasG := false
@@ -303,8 +303,13 @@ func (s *state) dump() string {
 	if !hasG {
 		ids = append([]int{s.genesisID}, ids...)
 	}
+	// step > 1: a sample (every step-th id / height plus the first 6 and the last 60), for very long chains
+	keepIdx := func(i, n, v int) bool { return step <= 1 || v%step == 0 || i < 6 || i >= n-60 }
 	var hh, ch, gh, ph []string
-	for _, id := range ids {
+	for idx, id := range ids {
+		if !keepIdx(idx, len(ids), id) {
+			continue
+		}
 		hash := s.hashOf(id)
 		hh = append(hh, fmt.Sprintf("%d:%d", id, s.repo.HashHeight(hash)))
 		if h, f, err := s.repo.CheckHeader(ctx, hash); err != nil {
@@ -326,6 +331,9 @@ func (s *state) dump() string {
 	top := s.repo.Height() + 1
 	var at []string
 	for k := s.dumpFrom; k <= top; k++ {
+		if !keepIdx(k-s.dumpFrom, top+1-s.dumpFrom, k) {
+			continue
+		}
 		hs, err := s.repo.Hash(ctx, k)
 		if err != nil {
 			at = append(at, fmt.Sprintf("%d:%s", k, readErr(err)))
@@ -353,7 +361,11 @@ func (s *state) dump() string {
 	if th >= 3 {
 		lo = th - 3
 	}
-	ranges := []string{rng(s.dumpFrom, top+2-s.dumpFrom), rng(lo, 10), rng(s.dumpFrom+(th-s.dumpFrom)/2, 5)}
+	full := s.dumpFrom
+	if step > 1 && top-100 > full {
+		full = top - 100
+	}
+	ranges := []string{rng(full, top+2-full), rng(lo, 10), rng(s.dumpFrom+(th-s.dumpFrom)/2, 5)}
 	return fmt.Sprintf("%s hh=[%s] ch=[%s] gh=[%s] ph=[%s] at=[%s] rg=[%s]", s.tip(), strings.Join(hh, ","),
 		strings.Join(ch, ","), strings.Join(gh, ","), strings.Join(ph, ","), strings.Join(at, ","), strings.Join(ranges, ";"))
 }
@@ -671,7 +683,11 @@ func (s *state) step(line string) string {
 		s.subs = append(s.subs, s.repo.GetNewHeadersAvailableChannel())
 		return op + " => ok"
 	case "dump":
-		out, ptxt := hx.Guard(func() string { return s.dump() })
+		step := 1
+		if v, ok := a.Int("step"); ok && v > 1 {
+			step = int(v)
+		}
+		out, ptxt := hx.Guard(func() string { return s.dump(step) })
 		if out == "panic" {
 			return op + " => panic #" + strings.ReplaceAll(ptxt, " ", "_")
 		}
